@@ -1,4 +1,4 @@
-import TrionModel.Lemmas.LexLit
+import TrionModel.Lemmas.LexStrAll
 /-!
 # C11 — literals denote exactly the written value
 
@@ -169,46 +169,240 @@ end Trion.Lex
 
 namespace Trion.Lex
 
-/-- C11.j `str_lit_partial`  A string literal without escapes over TAB and the printable ASCII characters
-(other than `"` and `\`), of any length, yields exactly the text between the quotes.
+/-- C11.j `utf8_roundtrip`  `chars().next()` undoes `String::push`: for every Unicode scalar value `c` (one to
+four bytes) and any following text, decoding the encoding gives back `c` and the encoded length. -/
+theorem utf8_roundtrip (c : Nat) (hs : isScalar c = true) (rest : Bytes) :
+    decodeChar (encodeChar c ++ rest) = some (c, (encodeChar c).length) :=
+  decodeChar_encodeChar c hs rest
 
-Full statement (`str_lit`), NOT proved in Lean: for every list of Unicode scalar values, rendered with any
-mixture of raw UTF-8 (for characters that may be written raw) and the escapes `\0 \t \n \r \" \' \\
-\u{hex}`, `tokens ("\"" ++ rendering ++ "\"") = [str (UTF-8 of the scalars)]`. Missing: the induction
-over the `strLoop` iterations with the accumulated `escaped` buffer, and `decodeChar (encodeChar c) = c`
-for multi-byte `c` (needed for raw multi-byte characters and for `\u{…}`); likewise `char_lit` for
-multi-byte characters. These cases are covered by the correspondence run (every scalar value, raw and as
-`\u{hex}`, in character and string literals) and by the byte-table theorems above. -/
-theorem str_lit_raw_partial (body : Bytes) (hb : ∀ b ∈ body, isRawStrByte b = true) :
-    tokens (34 :: body ++ [34]) = .ok ⟨[⟨1, 1, .str body⟩], none, 1, 1 + (body.length + 2)⟩ := by
-  have hascii : ∀ b ∈ (34 : UInt8) :: body ++ [34], b.toNat < 128 := by
-    intro b hx
-    simp at hx
-    rcases hx with rfl | hx | rfl
-    · decide
-    · have := hb b hx
-      simp [isRawStrByte] at this
-      omega
-    · decide
-  unfold tokens
-  rw [new_ascii _ hascii]
-  have hnext : nextToken ⟨34 :: body ++ [34], false, 1, 1⟩ =
-      .tok ⟨1, 1, .str body⟩ ⟨[], false, 1, 1 + (body.length + 2)⟩ := by
-    unfold nextToken
-    rw [skipLoop_none _ ⟨34 :: body ++ [34], false, 1, 1⟩ 34 (body ++ [34]) (by simp) (by decide) (by decide)]
-    simp only
-    have : (!((34 : UInt8) :: body ++ [34]).isEmpty) = true := by simp
-    simp only [this, if_true]
-    rw [doNext_string _ 34 (body ++ [34]) (by simp) (by decide), lexString_raw body hb]
-  have hrun : ∀ n, run (n + 2) ⟨34 :: body ++ [34], false, 1, 1⟩ =
-      .ok ⟨[⟨1, 1, .str body⟩], none, 1, 1 + (body.length + 2)⟩ := by
-    intro n
-    rw [run, hnext]
-    simp only
-    rw [run, nextToken_ended]
-    simp [Out.push]
-  exact hrun _
+/-- C11.k `char_lit`  For EVERY Unicode scalar value `c` that may be written raw — TAB, the printable ASCII
+characters other than the backslash, and everything from U+0080 on — the literal `'c'` (UTF-8 encoded) yields
+exactly one number token with value `c` at 1:1, and the stream ends at column 4. -/
+theorem char_lit (c : Nat) (hc : RawChar c) :
+    tokens (39 :: encodeChar c ++ [39]) = .ok ⟨[⟨1, 1, .num (Int.ofNat c)⟩], none, 1, 4⟩ := by
+  have hu : Utf8 ((39 : UInt8) :: encodeChar c ++ [39]) :=
+    utf8_ascii_cons 39 (by decide) (utf8_encodeChar c hc.1 (utf8_ascii_cons 39 (by decide) Utf8.nil))
+  apply tokens_single _ hu
+  rw [nextToken_doNext _ 39 (encodeChar c ++ [39]) (by simp) (by decide) (by decide),
+    doNext_char _ 39 (encodeChar c ++ [39]) (by simp) (by decide), lexChar_raw c hc]
 
+/-- C11.l `lit_reject` (characters, every scalar value)  A scalar value that may not be written raw — a control
+character other than TAB, DEL, the lone backslash — between apostrophes is rejected with `BadCharacter`. -/
+theorem char_reject (c : Nat) (hs : isScalar c = true) (hc : ¬ RawChar c) :
+    tokens (39 :: encodeChar c ++ [39]) = .ok ⟨[], some ⟨1, 1, .badCharacter⟩, 1, 1⟩ := by
+  have hlt : c < 128 := by
+    rcases Nat.lt_or_ge c 128 with h | h
+    · exact h
+    · exact absurd ⟨hs, .inr (.inr h)⟩ hc
+  rw [encodeChar_ascii c hlt]
+  exact char_reject_ascii c hlt (fun h => hc ⟨hs, by omega⟩)
+
+/-- C11.l'  `lit_reject` (characters): a character literal whose closing apostrophe is missing — the text ends
+after the character — is rejected with `BadCharacter`, for every scalar value that may be written raw. -/
+theorem char_unclosed (c : Nat) (hc : RawChar c) :
+    tokens (39 :: encodeChar c) = .ok ⟨[], some ⟨1, 1, .badCharacter⟩, 1, 1⟩ := by
+  obtain ⟨hs, hadm⟩ := hc
+  have hrest : Utf8 (encodeChar c) := by simpa using utf8_encodeChar c hs Utf8.nil
+  have hu : Utf8 ((39 : UInt8) :: encodeChar c) := utf8_ascii_cons 39 (by decide) hrest
+  have hnext : nextToken ⟨39 :: encodeChar c, false, 1, 1⟩ = .err ⟨1, 1, .badCharacter⟩ ⟨[], false, 1, 1⟩ := by
+    rw [nextToken_doNext _ 39 (encodeChar c) rfl (by decide) (by decide), doNext_char _ 39 (encodeChar c) rfl (by decide)]
+    unfold lexChar
+    have hsl : sliceFrom ((39 : UInt8) :: encodeChar c) 1 = some (encodeChar c) := by
+      have := sliceFrom_split [(39 : UInt8)] (encodeChar c) (utf8_head? hrest)
+      simpa using this
+    simp only [hsl]
+    have hbody : lexCharBody false (encodeChar c) = .err false := by
+      unfold lexCharBody lexCharFirst
+      have hd := decodeChar_encodeChar c hs []
+      rw [List.append_nil] at hd
+      rw [hd]
+      simp only
+      have h92 : (c == 92) = false := by simp; omega
+      have hok : (c == 9 || (decide (32 ≤ c) && decide (c ≤ 126)) || decide (128 ≤ c)) = true := by
+        simp; omega
+      simp only [h92, Bool.false_eq_true, if_false, hok, if_true]
+      simp [decodeChar]
+    rw [hbody]
+    simp [fail, State.clear]
+  exact tokens_error _ hu _ _ hnext
+
+/-- C11.m `str_lit`  **Every string literal.** A body is any list of items, each either a scalar value written
+raw (`RawStrChar`: TAB, printable ASCII other than `"` and `\`, anything from U+0080 on; UTF-8 encoded), or one
+of the escapes `\0 \t \n \r \" \' \\`, or `\u{hex}` with 1–6 hexadecimal digits of either case that denote
+a scalar value (`HexOk`). The literal yields exactly one string token whose payload is the concatenated UTF-8
+encoding of the characters the items denote — whether the tokenizer borrows the payload from the source (no
+escape) or builds it in its `escaped` buffer — and the stream ends without error at the position after the
+literal. -/
+theorem str_lit (items : List StrItem) (hok : ∀ it ∈ items, it.Ok) :
+    tokens (34 :: renderAll items ++ [34]) =
+      .ok ⟨[⟨1, 1, .str (denoteAll items)⟩], none,
+        (Pos.of (34 :: renderAll items ++ [34])).1, (Pos.of (34 :: renderAll items ++ [34])).2⟩ := by
+  have hu : Utf8 ((34 : UInt8) :: renderAll items ++ [34]) :=
+    utf8_ascii_cons 34 (by decide) (utf8_renderAll items hok utf8_quote)
+  apply tokens_single _ hu
+  rw [nextToken_doNext _ 34 (renderAll items ++ [34]) (by simp) (by decide) (by decide),
+    doNext_string _ 34 (renderAll items ++ [34]) (by simp) (by decide),
+    lexString_items items hok [] Utf8.nil, Pos.of_eq_adv]
+
+/-- the old partial statement is now a corollary: an escape-free body over TAB and printable ASCII -/
+theorem str_lit_raw (cs : List Nat) (h : ∀ c ∈ cs, RawStrChar c) :
+    tokens (34 :: renderAll (cs.map .raw) ++ [34]) =
+      .ok ⟨[⟨1, 1, .str (renderAll (cs.map .raw))⟩], none,
+        (Pos.of (34 :: renderAll (cs.map .raw) ++ [34])).1, (Pos.of (34 :: renderAll (cs.map .raw) ++ [34])).2⟩ := by
+  have hraw : (cs.map StrItem.raw).all StrItem.isRaw = true := by simp [StrItem.isRaw]
+  rw [str_lit _ (by intro it hit; simp at hit; obtain ⟨c, hc, rfl⟩ := hit; exact h c hc), renderAll_raw _ hraw]
+
+/-- C11.n `lit_reject` (strings, general form)  After ANY well-formed beginning of a body, a tail at which the
+scanner gives up (`BadTail`, instances below) makes the whole literal the single error `BadString` at 1:1 with
+no token. Since the first offending place of a body is always preceded by a well-formed beginning, the
+instances cover the offence *anywhere* in the body. -/
+theorem str_reject (items : List StrItem) (hok : ∀ it ∈ items, it.Ok) (tail : Bytes) (hut : Utf8 tail)
+    (hroom : endsWithEsc items = true → tail ≠ []) (hbad : BadTail tail) :
+    tokens (34 :: renderAll items ++ tail) = .ok ⟨[], some ⟨1, 1, .badString⟩, 1, 1⟩ := by
+  have hu : Utf8 ((34 : UInt8) :: renderAll items ++ tail) :=
+    utf8_ascii_cons 34 (by decide) (utf8_renderAll items hok hut)
+  have hnext : nextToken ⟨34 :: renderAll items ++ tail, false, 1, 1⟩ = .err ⟨1, 1, .badString⟩ ⟨[], false, 1, 1⟩ := by
+    rw [nextToken_doNext _ 34 (renderAll items ++ tail) (by simp) (by decide) (by decide),
+      doNext_string _ 34 (renderAll items ++ tail) (by simp) (by decide),
+      lexString_reject items hok tail hut hroom hbad]
+    rfl
+  exact tokens_error _ hu _ _ hnext
+
+/-- C11.o  missing closing quote: a well-formed body that simply ends (a body that ends in a one-letter escape
+is the next theorem's case `rest = [e]`) -/
+theorem str_unclosed (items : List StrItem) (hok : ∀ it ∈ items, it.Ok) (hend : endsWithEsc items = false) :
+    tokens (34 :: renderAll items) = .ok ⟨[], some ⟨1, 1, .badString⟩, 1, 1⟩ := by
+  have := str_reject items hok [] Utf8.nil (by simp [hend]) badTail_nil
+  simpa using this
+
+/-- C11.p  a backslash with fewer than two bytes after it (the text ends inside the escape, or right after a
+one-letter escape: the closing quote is missing) -/
+theorem str_unclosed_escape (items : List StrItem) (hok : ∀ it ∈ items, it.Ok)
+    (rest : Bytes) (hr : Utf8 rest) (hlen : rest.length < 2) :
+    tokens (34 :: renderAll items ++ 92 :: rest) = .ok ⟨[], some ⟨1, 1, .badString⟩, 1, 1⟩ :=
+  str_reject items hok _ (utf8_ascii_cons 92 (by decide) hr) (by simp) (badTail_short rest hlen)
+
+theorem endsWithEsc_split : ∀ (items : List StrItem), endsWithEsc items = true →
+    ∃ init e, items = init ++ [.esc e] := by
+  intro items
+  induction items with
+  | nil => intro h; simp [endsWithEsc] at h
+  | cons it r ih =>
+    intro h
+    cases r with
+    | nil =>
+      cases it with
+      | esc e => exact ⟨[], e, rfl⟩
+      | raw c => simp [endsWithEsc, StrItem.isEsc] at h
+      | uni x => simp [endsWithEsc, StrItem.isEsc] at h
+    | cons a b =>
+      obtain ⟨init, e, he⟩ := ih (by simpa [endsWithEsc] using h)
+      exact ⟨it :: init, e, by rw [he]; rfl⟩
+
+theorem renderAll_append (xs ys : List StrItem) : renderAll (xs ++ ys) = renderAll xs ++ renderAll ys := by
+  induction xs with
+  | nil => rfl
+  | cons x r ih => simp [renderAll, ih]
+
+/-- C11.p'  **Missing closing quote, every well-formed body**: the opening quote followed by any list of items
+and then the end of the text is the single error `BadString`. -/
+theorem str_unclosed_any (items : List StrItem) (hok : ∀ it ∈ items, it.Ok) :
+    tokens (34 :: renderAll items) = .ok ⟨[], some ⟨1, 1, .badString⟩, 1, 1⟩ := by
+  cases hend : endsWithEsc items with
+  | false => exact str_unclosed items hok hend
+  | true =>
+    obtain ⟨init, e, rfl⟩ := endsWithEsc_split items hend
+    have he : (escValue e.toNat).isSome = true := hok (.esc e) (by simp)
+    obtain ⟨v, hv⟩ := Option.isSome_iff_exists.mp he
+    have := str_unclosed_escape init (fun it hit => hok it (by simp [hit])) [e]
+      (utf8_ascii_cons e (escValue_ascii hv).1 Utf8.nil) (by simp)
+    rw [renderAll_append]
+    simpa [renderAll, StrItem.render] using this
+
+/-- C11.q  a raw control character other than TAB, or DEL, anywhere in the body, whatever follows -/
+theorem str_reject_control_any (items : List StrItem) (hok : ∀ it ∈ items, it.Ok) (b : UInt8) (rest : Bytes)
+    (hr : Utf8 rest) (hb : (b.toNat < 32 ∧ b.toNat ≠ 9) ∨ b.toNat = 127) :
+    tokens (34 :: renderAll items ++ b :: rest) = .ok ⟨[], some ⟨1, 1, .badString⟩, 1, 1⟩ :=
+  str_reject items hok _ (utf8_ascii_cons b (by omega) hr) (by simp) (badTail_control b rest hb)
+
+/-- C11.r  an unknown escape letter (anything but `0 t n r " ' \ u`), anywhere, whatever follows -/
+theorem str_reject_unknown_escape (items : List StrItem) (hok : ∀ it ∈ items, it.Ok) (e : UInt8) (rest : Bytes)
+    (hr : Utf8 (e :: rest)) (hv : escValue e.toNat = none) (hu : e.toNat ≠ 117) :
+    tokens (34 :: renderAll items ++ 92 :: e :: rest) = .ok ⟨[], some ⟨1, 1, .badString⟩, 1, 1⟩ :=
+  str_reject items hok _ (utf8_ascii_cons 92 (by decide) hr) (by simp) (badTail_unknown e rest hv hu)
+
+/-- C11.s  `\u` not followed by an opening brace -/
+theorem str_reject_u_nobrace (items : List StrItem) (hok : ∀ it ∈ items, it.Ok) (g : UInt8) (rest : Bytes)
+    (hr : Utf8 (g :: rest)) (hg : g.toNat ≠ 123) :
+    tokens (34 :: renderAll items ++ 92 :: 117 :: g :: rest) = .ok ⟨[], some ⟨1, 1, .badString⟩, 1, 1⟩ :=
+  str_reject items hok _ (utf8_ascii_cons 92 (by decide) (utf8_ascii_cons 117 (by decide) hr)) (by simp)
+    (badTail_nobrace g rest hg)
+
+/-- C11.t  `\u{` without a closing brace among the next seven bytes: more than six digits, or unterminated -/
+theorem str_reject_uni_long (items : List StrItem) (hok : ∀ it ∈ items, it.Ok) (r3 : Bytes) (hr : Utf8 r3)
+    (hno : ∀ b ∈ r3.take 7, b.toNat ≠ 125) :
+    tokens (34 :: renderAll items ++ 92 :: 117 :: 123 :: r3) = .ok ⟨[], some ⟨1, 1, .badString⟩, 1, 1⟩ :=
+  str_reject items hok _
+    (utf8_ascii_cons 92 (by decide) (utf8_ascii_cons 117 (by decide) (utf8_ascii_cons 123 (by decide) hr))) (by simp)
+    (badTail_uni_open r3 hr hno)
+
+/-- C11.u  `\u{text}` (closing brace within seven bytes) is rejected whenever `text` is NOT 1–6 hexadecimal
+digits denoting a scalar value: empty, signed (`+`/`-`), any non-hex byte, a surrogate D800–DFFF, a value above
+10FFFF. Together with `str_lit` (which accepts every `HexOk` text): accepted iff `HexOk`. -/
+theorem str_reject_uni (items : List StrItem) (hok : ∀ it ∈ items, it.Ok) (text more : Bytes)
+    (hr : Utf8 (text ++ 125 :: more)) (hno : ∀ b ∈ text, b.toNat ≠ 125) (hlen : text.length ≤ 6) (hbad : ¬ HexOk text) :
+    tokens (34 :: renderAll items ++ 92 :: 117 :: 123 :: (text ++ 125 :: more)) =
+      .ok ⟨[], some ⟨1, 1, .badString⟩, 1, 1⟩ :=
+  str_reject items hok _
+    (utf8_ascii_cons 92 (by decide) (utf8_ascii_cons 117 (by decide) (utf8_ascii_cons 123 (by decide) hr))) (by simp)
+    (badTail_uni_bad text more hr hno hlen hbad)
+
+/-- C11.v  the converse of `utf8_roundtrip`: whatever `chars().next()` returns is a scalar value and the bytes
+consumed are its encoding -/
+theorem utf8_roundtrip_inv (d : Bytes) (c n : Nat) (h : decodeChar d = some (c, n)) :
+    isScalar c = true ∧ d = encodeChar c ++ d.drop n := decodeChar_inv h
+
+/-- C11.w  a well-formed string literal followed by ANY text: the first call of `next()` yields the string
+token with the denoted text and leaves exactly the rest -/
+theorem str_lit_then (items : List StrItem) (hok : ∀ it ∈ items, it.Ok) (rest : Bytes) (hrest : Utf8 rest) :
+    nextToken ⟨34 :: renderAll items ++ 34 :: rest, false, 1, 1⟩ =
+      .tok ⟨1, 1, .str (denoteAll items)⟩
+        ⟨rest, false, (Pos.of (34 :: renderAll items ++ [34])).1, (Pos.of (34 :: renderAll items ++ [34])).2⟩ := by
+  rw [nextToken_doNext _ 34 (renderAll items ++ 34 :: rest) (by simp) (by decide) (by decide),
+    doNext_string _ 34 (renderAll items ++ 34 :: rest) (by simp) (by decide),
+    lexString_items items hok rest hrest, Pos.of_eq_adv]
+
+/-- C11.x  **Dichotomy: the reject classes are exhaustive.** For EVERY well-formed UTF-8 text after an opening
+quote: either it begins with a well-formed body and its closing quote (then `str_lit_then` gives the token), or
+the whole input is the single error `BadString` at 1:1 with no token. In particular every body without an
+unescaped closing quote is rejected. -/
+theorem str_dichotomy (body : Bytes) (hu : Utf8 body) :
+    (∃ items rest, (∀ it ∈ items, StrItem.Ok it) ∧ Utf8 rest ∧ body = renderAll items ++ 34 :: rest) ∨
+    tokens (34 :: body) = .ok ⟨[], some ⟨1, 1, .badString⟩, 1, 1⟩ := by
+  rcases bodyCases_all body.length body (Nat.le_refl _) hu with h | ⟨items, tail, h1, h2, h3, h4, rfl⟩
+  · exact .inl h
+  · exact .inr (str_reject items h1 tail h2 h3 h4)
+
+/-! non-vacuity: items of every kind, multi-byte characters, both payload routes, each reject class -/
+example : RawChar 0x20AC ∧ RawChar 0x1F600 ∧ RawChar 9 ∧ ¬ RawChar 92 ∧ ¬ RawChar 127 := by
+  refine ⟨⟨rfl, by omega⟩, ⟨rfl, by omega⟩, ⟨rfl, by omega⟩, ?_, ?_⟩ <;> (intro ⟨_, h⟩; omega)
+example : encodeChar 0x20AC = [0xE2, 0x82, 0xAC] ∧ encodeChar 0x1F600 = [0xF0, 0x9F, 0x98, 0x80] := by decide
+example : tokens [39, 0xE2, 0x82, 0xAC, 39] = .ok ⟨[⟨1, 1, .num 0x20AC⟩], none, 1, 4⟩ := by decide +kernel
+example : (StrItem.uni (bytesOf "1F600")).Ok ∧ (StrItem.uni (bytesOf "e9")).Ok ∧ (StrItem.esc 110).Ok ∧ (StrItem.raw 0xE9).Ok := by
+  refine ⟨⟨by decide, by decide, by decide, by decide⟩, ⟨by decide, by decide, by decide, by decide⟩, ?_, ⟨rfl, by omega⟩⟩
+  show (escValue 110).isSome = true
+  decide
+example : renderAll [.raw 97, .esc 110, .raw 0xE9, .uni (bytesOf "20AC")] =
+    bytesOf "a\\n" ++ [0xC3, 0xA9] ++ bytesOf "\\u{20AC}" := by decide
+example : denoteAll [.raw 97, .esc 110, .raw 0xE9, .uni (bytesOf "20AC")] =
+    [97, 10, 0xC3, 0xA9, 0xE2, 0x82, 0xAC] := by decide
+example : ¬ HexOk (bytesOf "D800") ∧ ¬ HexOk (bytesOf "110000") ∧ ¬ HexOk (bytesOf "+41") ∧ ¬ HexOk [] ∧ ¬ HexOk (bytesOf "4G") := by
+  refine ⟨?_, ?_, ?_, ?_, ?_⟩ <;> intro ⟨h1, h2, h3, h4⟩
+  · revert h4; decide
+  · revert h4; decide
+  · exact absurd (h3 43 (by decide)) (by decide)
+  · exact h1 rfl
+  · exact absurd (h3 71 (by decide)) (by decide)
 example : isRawStrByte 9 = true ∧ isRawStrByte 126 = true ∧ isRawStrByte 34 = false ∧ isRawStrByte 10 = false := by
   decide
 example : tokens (bytesOf "\"a\tb c\"") = .ok ⟨[⟨1, 1, .str (bytesOf "a\tb c")⟩], none, 1, 8⟩ := by decide
